@@ -658,6 +658,9 @@ def _proc_body(a):
         world = a.data["world"]
         kerneldll.SAS_DLL_PATH = world.pack_cache
         world.probe("packaging_run_started")
+        # (whoever packages creates the target directory first; precompile_dlls' own
+        # check-then-create of it is not what this property is about)
+        os.makedirs(world.cache_dir, exist_ok=True)
         a.data["req"] = tuple(a.data["precompile"][0])
         a.data["phase"] = "start"
         core.precompile_dlls(world.cache_dir, dtype=a.data["precompile"][0][1])
